@@ -89,6 +89,10 @@ theorem C15_secret_through_wrappers (dets : List Detector) (sh : GoVal → Bytes
   have hf := Props.C15.C15_secret dets sh det hdet tok r hk hd d hw db tbl i col v row hcell hlen hocc
   refine ⟨_, _, rfl, rfl, hf, _, List.mem_map.2 ⟨_, hf, rfl⟩, rfl, rfl, rfl, rfl, rfl⟩
 
+/-- the hypothesis of `C15_search_on_tree` / `C15_scanForSecrets` is satisfiable (every tree satisfies it for a total
+row reader, `Props.C10.Cluster.C10_total_dumpDataDir`); here: a reader that finds no rows, a tree of empty files -/
+example : dumpDataDir (fun _ _ _ => pure []) id (fun _ => some []) searchDumpOptions = .ok (some []) := rfl
+
 /-- the executable regex instance of family `extra` on a quoted pattern: `a.(` quoted is the literal `a.(`,
 matched case-insensitively -/
 example : (litQuoteRegex.compile (ciPrefix ++ quoteMeta [97, 46, 40])).map (fun re => (re [120, 65, 46, 40, 121], re [97, 98, 40])) =
